@@ -30,6 +30,16 @@ idempotent normalisation (what `sklearn.base.clone` requires), under a routable 
 known protocol and a `set_params` that returns `self` on every path. -/
 theorem class_table_storage_ok : ∀ c ∈ classes, c.ctorStorageOk = true := by decide
 
+/-- constructors store their parameters and nothing derived from them: the only other statements are the parameter
+object of `SkBase`, the (re)binding of the learner's method (redone by its `set_params`), the forwarding of `**kwargs`
+to `set_params`, and a constant.  A flag or private copy computed from a parameter in `__init__` would not follow
+`set_params` - the model's `setParams` / `getParams` know of no such state -/
+theorem constructors_store_parameters_only :
+    ctorSideState = ["SkBase (in SkBase): self.P =",
+                     "SkBaseTransformLearner (in SkBaseTransformLearner): call self._set_method",
+                     "ClassifierAfterKMeans (in ClassifierAfterKMeans): call self.set_params",
+                     "ConstraintKMeans (in ConstraintKMeans): self._n_threads ="] := by decide
+
 /-! ### string arithmetic of the custom protocols (regenerated expressions) -/
 
 /-- Indexed keys, **every** index: `models_<i>__<sub>` reaches member `i` with sub-key `<sub>` (this is the
